@@ -419,6 +419,7 @@ structure Sim (cfg : Cfg) (a : Spec.A) (s : State) : Prop where
   logOut : ∀ u m, u ∈ s.loggers → s.find u = some m → m.isLogger = true
   logConn : ∀ u m, s.find u = some m → m.isLogger = true → m.connected = true
   logNodup : s.loggers.Nodup
+  logBound : ∀ u, u ∈ s.loggers → u ≤ s.nextUid
 
 theorem mem_closes (evs : List Ev) (u : Nat) : u ∈ Spec.closes evs ↔ Ev.close u ∈ evs := by
   unfold Spec.closes
@@ -480,7 +481,7 @@ theorem sim_quiet {cfg : Cfg} {a : Spec.A} {s s' : State} (hs : Sim cfg a s) (ao
   have live' : ∀ u, (Spec.applyDepartures a ext').live u = if (Spec.closes ext').contains u then none else a.live u :=
     Spec.applyDepartures_live a ext'
   refine ⟨by rw [Spec.applyDepartures_uids, hna]; exact hs.uids, by rw [hna, n.nuid]; exact hs.nacc,
-    by rw [hfl, n.fail]; exact hs.fail, by rw [hb, n.buf]; exact hs.buf, ?_, ?_, ?_, ?_, ?_, ?_, ?_⟩
+    by rw [hfl, n.fail]; exact hs.fail, by rw [hb, n.buf]; exact hs.buf, ?_, ?_, ?_, ?_, ?_, ?_, ?_, ?_⟩
   · intro u hu
     rw [live']
     by_cases hc : (Spec.closes ext').contains u = true
@@ -524,6 +525,7 @@ theorem sim_quiet {cfg : Cfg} {a : Spec.A} {s s' : State} (hs : Sim cfg a s) (ao
       unfold Module.core at e; cases m; cases m'; simp_all
     rw [e'.2]; exact hs.logConn u m hm (by rw [← e'.1]; exact h1)
   · exact n.logSub.nodup hs.logNodup
+  · intro u hu; rw [n.nuid]; exact hs.logBound u (n.logSub.subset hu)
 
 /-! ## the simulation on a set of connections
 
@@ -544,14 +546,15 @@ structure SimOn (P : Nat → Prop) (cfg : Cfg) (a : Spec.A) (s : State) : Prop w
   logOut : ∀ u m, P u → u ∈ s.loggers → s.find u = some m → m.isLogger = true
   logConn : ∀ u m, P u → s.find u = some m → m.isLogger = true → m.connected = true
   logNodup : s.loggers.Nodup
+  logBound : ∀ u, u ∈ s.loggers → u ≤ s.nextUid
 
 theorem Sim.on {cfg : Cfg} {a : Spec.A} {s : State} (h : Sim cfg a s) (P : Nat → Prop) : SimOn P cfg a s :=
   ⟨h.uids, h.nacc, h.fail, h.buf, fun u _ => h.live u, fun u am m _ => h.mods u am m, fun u _ => h.w u,
-   fun u m _ => h.logIn u m, fun u m _ => h.logOut u m, fun u m _ => h.logConn u m, h.logNodup⟩
+   fun u m _ => h.logIn u m, fun u m _ => h.logOut u m, fun u m _ => h.logConn u m, h.logNodup, h.logBound⟩
 
 theorem SimOn.all {cfg : Cfg} {a : Spec.A} {s : State} (h : SimOn (fun _ => True) cfg a s) : Sim cfg a s :=
   ⟨h.uids, h.nacc, h.fail, h.buf, fun u => h.live u trivial, fun u am m => h.mods u am m trivial, fun u => h.w u trivial,
-   fun u m => h.logIn u m trivial, fun u m => h.logOut u m trivial, fun u m => h.logConn u m trivial, h.logNodup⟩
+   fun u m => h.logIn u m trivial, fun u m => h.logOut u m trivial, fun u m => h.logConn u m trivial, h.logNodup, h.logBound⟩
 
 /-- `sim_quiet` on a set of connections -/
 theorem simOn_quiet {P : Nat → Prop} {cfg : Cfg} {a : Spec.A} {s s' : State} (hs : SimOn P cfg a s) (ao : AllOpen s)
@@ -565,7 +568,7 @@ theorem simOn_quiet {P : Nat → Prop} {cfg : Cfg} {a : Spec.A} {s s' : State} (
   have live' : ∀ u, (Spec.applyDepartures a ext').live u = if (Spec.closes ext').contains u then none else a.live u :=
     Spec.applyDepartures_live a ext'
   refine ⟨by rw [Spec.applyDepartures_uids, hna]; exact hs.uids, by rw [hna, n.nuid]; exact hs.nacc,
-    by rw [hfl, n.fail]; exact hs.fail, by rw [hb, n.buf]; exact hs.buf, ?_, ?_, ?_, ?_, ?_, ?_, ?_⟩
+    by rw [hfl, n.fail]; exact hs.fail, by rw [hb, n.buf]; exact hs.buf, ?_, ?_, ?_, ?_, ?_, ?_, ?_, ?_⟩
   · intro u hp hu
     rw [live']
     by_cases hc : (Spec.closes ext').contains u = true
@@ -609,6 +612,7 @@ theorem simOn_quiet {P : Nat → Prop} {cfg : Cfg} {a : Spec.A} {s s' : State} (
       unfold Module.core at e; cases m; cases m'; simp_all
     rw [e'.2]; exact hs.logConn u m hp hm (by rw [← e'.1]; exact h1)
   · exact n.logSub.nodup hs.logNodup
+  · intro u hu; rw [n.nuid]; exact hs.logBound u (n.logSub.subset hu)
 
 /-- the event part of `Nest`: also satisfied by steps that rewrite fields of a table entry without opening or closing
     anything -/
